@@ -204,13 +204,34 @@ class TreesVsHist(_Base):
         return [Check("same_rule", vec(lambda b: trees[b].sum_weights, self.B), counts)]
 
 
+class BinningPickle(_Base):
+    """worker processes receive the binning as a pickled copy: the copy must carry the same edges AND the same closed side"""
+
+    functions = (Binning.__getstate__, Binning.__setstate__) if hasattr(Binning, "__getstate__") else (Binning.__init__,)
+
+    def __init__(self, B):
+        super().__init__(1, B)
+        self.name = "binning.pickled_copy.B%d" % B
+        self.bounds = "bins=%d, symbolic edges, both closed sides; copy through the pickle protocol (__reduce_ex__/__getstate__/__setstate__)" % B
+
+    def body(self, inp):
+        import copy
+        import pickle
+
+        closed = ("right", "left")[int(inp["closed"])]
+        b = Binning(inp["edges"].copy(), closed=closed)
+        b2 = copy.deepcopy(b) if inp["edges"].dtype == object else pickle.loads(pickle.dumps(b))
+        return [Check("edges", b2.edges, inp["edges"]), Check("closed_side", cond=(str(b2.closed) == str(b.closed) == closed)),
+                Check("equal", cond=bool(b2 == b))]
+
+
 def harnesses(tier):
     # stage lemmas owned by other checks on which "one rule everywhere" rests: the cache key of the trees includes the closed
     # side (so trees of the other rule are never reused), and a measurement takes its per-bin weight sums from those trees
     from checks.C01 import ProcessPair
     from checks.C07 import Step
 
-    hs = [Step(2, 2), ProcessPair(2, 1, "kpc", False), ProcessPair(2, 1, "kpc", True)]
+    hs = [Step(2, 2), ProcessPair(2, 1, "kpc", False), ProcessPair(2, 1, "kpc", True), BinningPickle(2)]
     if tier == "quick":
         hs += [Trees(3, 2), Hist(3, 2), UnbinnedTree(2), TreesVsHist(2, 2)]
     else:
